@@ -512,9 +512,13 @@ Fixpoint spec_trace (mc mf ft : Z) (unh : list bool) (b : sbook) (tr : list (hst
       snap_spec mc mf ft unh b' sn && spec_trace mc mf ft unh b' r
   end.
 
-(* ---- parsing of max_fails / max_conns (upstream.go parseBlock): strconv.Atoi then int32(n) ---- *)
+(* ---- parsing of max_fails (upstream.go parseBlock): strconv.ParseInt(s, 10, 32) — a range error
+   for a literal that does not fit int32 —, then "must be at least 1", then stored as int32(n) ---- *)
 Definition wrap_int32 (n : Z) : Z :=
   let m := n mod 4294967296 in if m <? 2147483648 then m else m - 4294967296.
+Definition fits_int32 (n : Z) : bool := (-2147483648 <=? n) && (n <? 2147483648).
+Definition parse_max_fails (n : Z) : option Z :=
+  if fits_int32 n then (if n <? 1 then None else Some (wrap_int32 n)) else None.
 
 Inductive case :=
 | CSched (hosts : nat) (mc mf ft : Z) (unh : list bool) (pol : N) (nthreads : nat)
@@ -550,8 +554,8 @@ Definition judge (c : case) : N :=
                   spec_trace mc mf ft unh b0 trace in
       verdict agree spec
   | CMaxFails n k accepted obs_down =>
-      let m_acc := 1 <=? n in
-      let m_down := wrap_int32 n <=? k in
+      let m_acc := match parse_max_fails n with Some _ => true | None => false end in
+      let m_down := match parse_max_fails n with Some m => m <=? k | None => false end in
       let agree := bool_eqb m_acc accepted && (negb accepted || bool_eqb m_down obs_down) in
       (* property: down exactly when at least max_fails failures are outstanding *)
       let spec := negb accepted || bool_eqb obs_down (n <=? k) in
